@@ -90,7 +90,8 @@ pub fn run_session(calls: &[&str]) -> String {
                 };
                 let mut done = false;
                 waiting_input = false;
-                for _ in 0..3000 {
+                let cap = if n <= 64 { 3000 } else { 40 };
+                for _ in 0..cap {
                     let e = rt.execute(n);
                     if let Event::Running = e {
                         continue;
